@@ -59,7 +59,7 @@ func newWorld(h Hist, layout int) *world {
 		w.nodes = append(w.nodes, x)
 	}
 	sort.Ints(w.nodes)
-	for a := 0; a < 8; a++ {
+	for a := 0; a < 16; a++ {
 		var v, e uint64
 		switch w.layout {
 		case 0:
